@@ -481,6 +481,79 @@ theorem updateAPIKeys_frame (st : St) :
   simp only []
   split <;> simp
 
+/-! ### Import: the last entry for a key wins -/
+
+/-- The entry is imported (not skipped, not expired) at instant `now`. -/
+def importsOk (now : Nat) (e : KeyEntry) : Bool :=
+  match parseKey now e with
+  | .ok _ _ => true
+  | _ => false
+
+theorem foldl_importStep_keep {now : Nat} (post : List KeyEntry) (acc : Import) (k : Bytes) (kt : KeyToken)
+    (hacc : acc.keys.lookup k = some kt)
+    (hpost : ∀ e ∈ post, ∀ kt', parseKey now e ≠ .ok k kt') :
+    (post.foldl (importStep now) acc).keys.lookup k = some kt := by
+  induction post generalizing acc with
+  | nil => exact hacc
+  | cons e rest ih =>
+    simp only [List.foldl]
+    apply ih
+    · unfold importStep
+      split
+      · exact hacc
+      · exact hacc
+      · rename_i p kt' hp
+        simp only [lookup_insertKey]
+        by_cases hk : k = p
+        · subst hk
+          exact absurd hp (hpost e (by simp) kt')
+        · simp [hk, hacc]
+    · intro e' he' kt'
+      exact hpost e' (by simp [he']) kt'
+
+theorem foldl_importStep_last_wins {now : Nat} (pre post : List KeyEntry) (e : KeyEntry) (acc : Import)
+    (k : Bytes) (kt : KeyToken) (he : parseKey now e = .ok k kt)
+    (hpost : ∀ e' ∈ post, ∀ kt', parseKey now e' ≠ .ok k kt') :
+    ((pre ++ e :: post).foldl (importStep now) acc).keys.lookup k = some kt := by
+  rw [List.foldl_append, List.foldl_cons]
+  apply foldl_importStep_keep post _ k kt _ hpost
+  unfold importStep
+  simp only [he, lookup_insertKey, if_true]
+
+theorem foldl_importStep_valid {now : Nat} (cfg : List KeyEntry) (acc : Import) :
+    (cfg.foldl (importStep now) acc).valid = (cfg.filter (importsOk now)).reverse ++ acc.valid := by
+  induction cfg generalizing acc with
+  | nil => simp
+  | cons e rest ih =>
+    simp only [List.foldl]
+    rw [ih]
+    unfold importStep importsOk
+    split <;> rename_i hp <;> simp [hp]
+
+theorem importKeys_valid (now : Nat) (cfg : List KeyEntry) :
+    (importKeys now cfg).valid.reverse = cfg.filter (importsOk now) := by
+  unfold importKeys
+  rw [foldl_importStep_valid]
+  simp
+
+/-- After `updateAPIKeys` the last entry of the option that imports a key `k` determines its token. -/
+theorem updateAPIKeys_last_wins (st : St) (pre post : List KeyEntry) (e : KeyEntry) (k : Bytes) (kt : KeyToken)
+    (hcfg : st.cfg = pre ++ e :: post) (he : parseKey st.now e = .ok k kt)
+    (hpost : ∀ e' ∈ post, ∀ kt', parseKey st.now e' ≠ .ok k kt') :
+    (updateAPIKeys st).keys.lookup k = some kt := by
+  unfold updateAPIKeys
+  simp only []
+  split
+  · simp only [importKeys_valid, hcfg, List.filter_append]
+    have hok : importsOk st.now e = true := by simp [importsOk, he]
+    rw [List.filter_cons_of_pos hok]
+    unfold importKeys
+    exact foldl_importStep_last_wins _ _ e {} k kt he
+      (fun e' he' kt' => hpost e' (List.mem_filter.mp he').1 kt')
+  · rw [hcfg]
+    unfold importKeys
+    exact foldl_importStep_last_wins pre post e {} k kt he hpost
+
 theorem toLowerGo_nil : toLowerGo [] = [] := by simp [toLowerGo]
 
 /-- `parseAPIPermission` only ever yields Anyone, User or Admin. -/
